@@ -12,6 +12,8 @@ fn flag_store(a: &AtomicBool, v: bool, o: Ordering)
 fn flag_load(a: &AtomicBool, o: Ordering) -> (r: bool)
     ensures w_flag_loaded(a, r),
 { a.load(o) }
+/// the per-iteration closure of run()/block_on has been called on the user data in state d
+pub uninterp spec fn w_closure_ran<D>(d: D) -> bool;
 pub uninterp spec fn w_flag_swapped(a: &AtomicBool, new: bool, prev: bool) -> bool;
 #[verifier::external_body]
 fn flag_swap(a: &AtomicBool, v: bool, o: Ordering) -> (r: bool)
@@ -78,11 +80,17 @@ impl LoopSignal {
             // C11 ("at most the iteration in progress"): a new iteration is entered only right after a stop check that said
             // "not stopped" -- no user code (the per-iteration closure) between the check and the dispatch
             assert(w_flag_loaded_at(self.stop_flag(), false, *data));
+//@ after <<self.dispatch(timeout, data)?;>>
+            proof { dispatched = Some(*data); }
+//@ entry
+        let ghost mut dispatched: Option<Data> = None;
 //@ pre
     #[verifier::exec_allows_no_decreases_clause]
 //@ spec
         requires
             forall|d: &mut Data| #[trigger] call_requires(cb, (d,)),
+            // (must-call device) a call of the per-iteration closure leaves the witness "ran on the state the dispatch left"
+            forall|d: &mut Data| #[trigger] call_ensures(cb, (d,), ()) ==> w_closure_ran(*d),
         ensures
             // C11: run() never returns Ok without having read the stop flag as raised
             r is Ok ==> w_flag_loaded(old(self).stop_flag(), true),
@@ -94,6 +102,9 @@ impl LoopSignal {
             forall|d: &mut Data| #[trigger] call_requires(cb, (d,)),
             self.stop_flag() == old(self).stop_flag(),
             w_flag_stored(old(self).stop_flag(), false),
+            forall|d: &mut Data| #[trigger] call_ensures(cb, (d,), ()) ==> w_closure_ran(*d),
+            // C11: every iteration that dispatched has also run the per-iteration closure (on the state the dispatch left)
+            dispatched matches Some(d0) ==> w_closure_ran(d0),
         ensures
             // (stated on the loop so that it holds for either form of it: `while !stop {..}` or `loop { if stop { break } .. }`)
             w_flag_loaded(old(self).stop_flag(), true),
@@ -123,6 +134,7 @@ impl<'l, Data> EventLoop<'l, Data> {
 //@ spec
         requires
             forall|d: &mut Data| #[trigger] call_requires(cb, (d,)),
+            forall|d: &mut Data| #[trigger] call_ensures(cb, (d,), ()) ==> w_closure_ran(*d),
             // C11 (may-call side): the future may be polled ONLY by an iteration whose swap found the ready flag set -- the
             // swap clears it BEFORE the poll, so a wake that arrives while the future is being polled sets it again and
             // is seen by the next iteration (never overwritten)
@@ -134,11 +146,18 @@ impl<'l, Data> EventLoop<'l, Data> {
             // Some(v) exactly from a poll that returned Ready(v); None only after the stop flag was read as raised
             r matches Ok(Some(v)) ==> w_future_ready(v),
             r matches Ok(None) ==> w_flag_loaded(old(self).stop_flag(), true),
+//@ after <<self.dispatch_idles(data);>>
+            proof { dispatched = Some(*data); }
+//@ entry
+        let ghost mut dispatched: Option<Data> = None;
 //@ loop 1
         invariant_except_break
             output is None,
         invariant
             forall|d: &mut Data| #[trigger] call_requires(cb, (d,)),
+            forall|d: &mut Data| #[trigger] call_ensures(cb, (d,), ()) ==> w_closure_ran(*d),
+            // every iteration that dispatched has also run the per-iteration closure
+            dispatched matches Some(d0) ==> w_closure_ran(d0),
             self.stop_flag() == old(self).stop_flag(), self.ready_flag() == old(self).ready_flag(),
             may_poll_future() <==> w_flag_swapped(old(self).ready_flag(), false, true),
             w_flag_stored(old(self).ready_flag(), true), w_flag_stored(old(self).stop_flag(), false),
